@@ -10,7 +10,6 @@ import (
 	"net"
 	"strings"
 	"sync"
-	"sync/atomic"
 	"testing"
 	"time"
 
@@ -419,7 +418,22 @@ func runC15once(c C15Case) (fails []vstat.Failure) {
 	key := func(clause string) string { return "C15:" + c.Stack + ":" + clause }
 	results := make([]stallResult, len(c.Stalled))
 	probe := startLagProbe()
-	defer probe.stop()
+	defer func() {
+		probe.stop()
+		// positive timing clauses say nothing about the proxy when the process did not get the CPU it asked for
+		if why := probe.starved(); why != "" {
+			var keep []vstat.Failure
+			for _, f := range fails {
+				if strings.Contains(f.Key, "bystander") || strings.Contains(f.Key, "too-late") || strings.Contains(f.Key, "slow-origin") {
+					st.Inconclusive()
+					st.Note("C15: %s not judged: %s", f.Key, why)
+					continue
+				}
+				keep = append(keep, f)
+			}
+			fails = keep
+		}
+	}()
 	var wg sync.WaitGroup
 	for i, s := range c.Stalled {
 		wg.Add(1)
@@ -478,9 +492,9 @@ func runC15once(c C15Case) (fails []vstat.Failure) {
 		case r.open:
 			fails = append(fails, vstat.Failf(key("too-late:"+r.spec.Point), "%s: still open %v after the limit", desc, r.slack))
 		case took > r.limit+tol:
-			if lag := probe.max(); lag > 40*time.Millisecond {
+			if why := probe.starved(); why != "" {
 				st.Inconclusive()
-				st.Note("C15: a late cut-off (%v after a %v limit) is not judged: the scheduler delayed a 5 ms sleep by up to %v during the case", took.Round(time.Millisecond), r.limit, lag.Round(time.Millisecond))
+				st.Note("C15: a late cut-off (%v after a %v limit) is not judged: %s", took.Round(time.Millisecond), r.limit, why)
 			} else {
 				fails = append(fails, vstat.Failf(key("too-late:"+r.spec.Point), "%s: more than %v later than the limit allows", desc, tol))
 			}
@@ -531,32 +545,3 @@ func classifyC15(c C15Case) (bool, string, []string) {
 var propC15 = vstat.Prop[C15Case]{Name: "TestC15Stall", Gen: genC15, Run: runC15, Classify: classifyC15}
 
 func TestC15Stall(t *testing.T) { propC15.Check(t, st) }
-
-
-// lagProbe measures by how much short sleeps overshoot while a case runs: the scheduling noise that timing
-// tolerances have to be read against.
-type lagProbe struct {
-	worst atomic.Int64
-	done  chan struct{}
-}
-
-func startLagProbe() *lagProbe {
-	p := &lagProbe{done: make(chan struct{})}
-	go func() {
-		for {
-			t0 := time.Now()
-			select {
-			case <-p.done:
-				return
-			case <-time.After(5 * time.Millisecond):
-			}
-			if over := int64(time.Since(t0) - 5*time.Millisecond); over > p.worst.Load() {
-				p.worst.Store(over)
-			}
-		}
-	}()
-	return p
-}
-
-func (p *lagProbe) max() time.Duration { return time.Duration(p.worst.Load()) }
-func (p *lagProbe) stop()              { close(p.done) }
